@@ -1,4 +1,5 @@
-(* <hex-source> -> ERR | FUEL | OK <node> <node> ...   the canonical AST dump of harness/src/bin/astdump.rs, from the model *)
+(* <hex-source> -> ERR | FUEL | OK <node> <node> ...   ;   M <hex-source> -> MIN <least fuel> <fuel used> <chars>
+      the canonical AST dump of harness/src/bin/astdump.rs, from the model *)
 let text_str (t : n list) = String.concat "" (List.map (fun c -> let c = int_of_n c in
   if c < 128 && c <> 92 && c <> 10 && c <> 9 && c <> 13 && c <> 0 then String.make 1 (Char.chr c) else Printf.sprintf "\\u{%x}" c) t)
 let raw_str (t : n list) = encode_utf8 (List.map int_of_n t)
@@ -48,8 +49,24 @@ and node = function
 | NRuledef (s, ns, is_sub, name, rs) -> Printf.sprintf "(%s %s %s %s%s)" (if is_sub then "subruledef" else "ruledef") (sp s) (sp ns)
     (match name with Some n -> raw_str n | None -> "-")
     (cat (fun r -> Printf.sprintf "(rule %s [%s] %s)" (osp r.ar_span) (String.concat " " (List.map part r.ar_parts)) (pr r.ar_expr)) rs)
+(* "M <hex>": the least fuel with which the model does not answer FUEL (doubling, then bisection), and the fuel parse_file uses *)
+let answers_with fuel t = match parse_lines (nat_of_int fuel) O false (start_walker t) [] with PFuel -> false | _ -> true
+let min_fuel t =
+  let hi = ref 1 in
+  while not (answers_with !hi t) do hi := 2 * !hi done;
+  let lo = ref (!hi / 2) in   (* lo fails (or is 0), hi answers *)
+  while !hi - !lo > 1 do
+    let mid = (!lo + !hi) / 2 in
+    if answers_with mid t then hi := mid else lo := mid
+  done;
+  !hi
 let () = iter_lines (fun line ->
-  let t = text_of_hex (String.trim line) in
+  let line = String.trim line in
+  if String.length line >= 2 && String.sub line 0 2 = "M " then begin
+    let t = text_of_hex (String.sub line 2 (String.length line - 2)) in
+    Printf.printf "MIN %d %d %d\n" (min_fuel t) (int_of_nat (file_fuel t)) (List.length t)
+  end else
+  let t = text_of_hex line in
   try
     match parse_file t with
     | POk (ns, _) -> print_endline ("OK" ^ cat node ns)
